@@ -62,6 +62,9 @@ theorem actLoopC_ok (t : Table) (mode : Nat) (p input : List Nat) (m : Pass.Matc
         · simp only [hom, Bool.false_eq_true, ↓reduceIte]
           by_cases hcp : (Pass.ins p ic == pass_copy) = true
           · simp only [hcp, ↓reduceIte]
+            by_cases hguard : (decide (dsr - dsm > 0) && decide (dsr + (dsr - dsm) > max)) = true
+            · simp only [hguard, ↓reduceIte]; exact ho
+            simp only [hguard, Bool.false_eq_true, ↓reduceIte]
             have ho1 : (if dsr - dsm > 0 then moveOut o dsm dsr else o).chars.length ≤ max := by
               split
               · exact moveOut_cap o dsm dsr max ho
